@@ -270,10 +270,15 @@ def execute(case):
                     acting = ms_[op["bop"]["m"] % len(ms_)]
                     acting_idx = acting.index
                     acting_is_multictl = type(acting).__name__ == "MultiCtl"
+                    if acting_is_multictl:
+                        # decide from the slot that WILL be written (the op may fail half way through
+                        # the propagation): a MultiCtl's controllers legitimately drive its linked targets
+                        builder.set_layout(case.get("layout", 1))
+                        sl = builder.module_slots(acting, builder.Session(a["obj"], layout=case.get("layout", 1)), layout=case.get("layout", 1))
+                        if sl[op["bop"]["s"] % len(sl)][0].startswith("ctl."):
+                            acting_idx = None
                 label = mutate(a["obj"], op, case.get("layout", 1))
                 snap, b = obj_digest(a["obj"])
-                if acting_idx is not None and acting_is_multictl and ":ctl." in label:
-                    acting_idx = None  # a MultiCtl's controllers legitimately drive its linked targets
                 if acting_idx is not None:
                     # isolation between the modules of ONE project: a module-local edit must not
                     # change any other module of the same project
